@@ -84,7 +84,7 @@ CHECKS["C05"] = {
             "is indented, or it directly follows an entry line; distinct by construction",
     "deadline": {"quick": 100, "thorough": 1200},
     "parts": [
-        {"name": "insert", "harness": "c05", "variant": "asan", "quick": ["--p0", 2, "--p1", 3, "--p2", 6], "thorough": ["--p0", 2, "--p1", 4, "--p2", 7],
+        {"name": "insert", "harness": "c05", "variant": "asan", "quick": ["--p0", 2, "--p1", 3, "--p2", 4], "thorough": ["--p0", 2, "--p1", 4, "--p2", 5],
          "deadline_share": 0.6, "floor": {"quick": 100000, "thorough": 1000000}},
         {"name": "insert-3lines", "harness": "c05", "variant": "asan", "tiers": ["thorough"], "thorough": ["--p0", 3, "--p1", 3],
          "deadline_share": 0.4, "floor": {"thorough": 1000000}},
@@ -109,7 +109,7 @@ CHECKS["C04"] = {
          "deadline_share": 0.4, "floor": {"quick": 100000, "thorough": 1000000}},
         {"name": "lines", "harness": "c04", "variant": "asan", "quick": ["--p0", 1, "--p1", 2, "--p2", 3], "thorough": ["--p0", 1, "--p1", 3, "--p2", 4],
          "deadline_share": 0.4, "floor": {"quick": 50000, "thorough": 1000000}},
-        {"name": "mergepairs", "harness": "c04", "variant": "asan", "quick": ["--p0", 2, "--p1", 3, "--p2", 6], "thorough": ["--p0", 2, "--p1", 4, "--p2", 7],
+        {"name": "mergepairs", "harness": "c04", "variant": "asan", "quick": ["--p0", 2, "--p1", 3, "--p2", 4], "thorough": ["--p0", 2, "--p1", 4, "--p2", 5],
          "deadline_share": 0.2, "floor": {"quick": 1000, "thorough": 10000}},
     ],
     "assumptions": ["bytes outside the 13-symbol structural alphabet behave like one of its members (letter / 8-bit byte)",
